@@ -31,7 +31,12 @@ RULE = ("image case = (projection, H, W, CDELT, CRPIX, CRVAL, region circles/pol
         "blank sets of the (-1,-1)-shifted, (+1,+1)-shifted and (for H != W or always) row/column-swapped "
         "conventions, so that an origin or axis error is visible; table case = (rows, coordinate codes, column "
         "names, negate, entry point, file format); non-trivial = at least one row inside, one outside and one with "
-        "a non-finite coordinate, or the empty table; distinct by the full case description")
+        "a non-finite coordinate, or the empty table; history case = 7 images masked in order in one process with one "
+        "Region object and the same file names, equal in shape/CRVAL/CRPIX/|CDELT|/region and differing in CDELT signs "
+        "(all four), rotation, dtype, memory layout, entry point, planes - every step judged by its own per-pixel "
+        "oracle, counted per step; masked-table case = catalogue with empty (masked) coordinate cells and literal NaN, "
+        "entry x input format enumerated (in-memory MaskedColumn, csv, tab, fits, votable), region covering the "
+        "position obtained by substituting 0 / the hidden value; distinct by the full case description")
 ASSUMPTIONS = [
     "astropy.wcs implements the FITS WCS papers: wcs_pix2world(p, origin) evaluates the transformation at the FITS "
     "coordinate p + (1 - origin) (sampled every run: origin 0 vs origin 1, and vs an independent zenithal "
@@ -40,6 +45,7 @@ ASSUMPTIONS = [
     "region's pixel set (C08)",
     "astropy.io.fits / astropy.table read back what they wrote (mask_file, mask_catalog)",
     "the hand model of mask_plane / mask_file / mask_table is tied to the code only by this sampled correspondence",
+    "an empty (masked) table cell is an undefined coordinate whatever value is stored under the mask",
     "pixels whose centre lies within 1e-9 deg of a HEALPix pixel edge of the region boundary are excluded "
     "(the case is skipped and counted)",
 ]
@@ -491,8 +497,8 @@ def gen_image(rng, quick, small=False):
         with warnings.catch_warnings():
             warnings.simplefilter('ignore')
             ra, dec = w.wcs_pix2world([[x, y]], 1)[0]
-        if not (np.isfinite(ra) and np.isfinite(dec)):
-            ra, dec = crval
+        if not (np.isfinite(ra) and np.isfinite(dec) and abs(dec) <= 89.9):
+            ra, dec = crval     # off the projection (wide fields): fall back to the reference position
         rad = min(ext * rng.uniform(0.12, 0.6), 30.0)
         circles.append([float(ra), float(dec), float(rad)])
     if rng.random() < 0.2 and not nansky:
@@ -555,6 +561,8 @@ def gen_history(rng, quick):
         off = m * rng.uniform(0.15, 0.3)
         x, y = crpix[0] + off * math.cos(ang), crpix[1] + off * math.sin(ang)
         ra, dec = w.wcs_pix2world([[x, y]], 1)[0]
+        if not (np.isfinite(ra) and np.isfinite(dec) and abs(dec) <= 89.9):
+            ra, dec = crval
         circles.append([float(ra), float(dec), float(m * min(cd, cdy) * rng.uniform(0.15, 0.3))])
     depth = max(3, min(12, int(math.ceil(math.log2(58.63 / (0.6 * min(cd, cdy)))))))
     base['region'] = dict(depth=depth, circles=circles, polys=[])
@@ -669,6 +677,8 @@ def one_line_cube(rng):
     n = max(c['H'], c['W'])
     x, y = (rng.uniform(1, n), 1.0) if c['H'] == 1 else (1.0, rng.uniform(1, n))
     ra, dec = w.wcs_pix2world([[x, y]], 1)[0]
+    if not (np.isfinite(ra) and np.isfinite(dec) and abs(dec) <= 89.9):
+        ra, dec = c['crval']
     px = min(abs(c['cdelt'][0]), abs(c['cdelt'][1]))
     c['region']['circles'] = [[float(ra), float(dec), float(px * max(1.2, n * rng.uniform(0.15, 0.3)))]]
     c['region']['polys'] = []
